@@ -79,6 +79,7 @@ struct ExecOptions {
     ExecHooks *hooks = nullptr;
     bool final_cleanup = true;  // clean up objects still live at the end (not part of the transcript)
     int align_delta = 0;        // metamorphic: move every buffer to another alignment
+    bool no_pin = false;        // never touch the back-end pin (multi-threaded scenarios set it once, before threads start)
     bool heap_buffers = false;  // every buffer is its own malloc block ending exactly at the buffer's end (for ASan)
 };
 
@@ -116,6 +117,7 @@ public:
     }
 
     std::vector<Slot> &slot_table() { return slots; }
+    Exec *shared = nullptr;
     // harness-owned memory that `new.<kind> plant=1` stores into the handle fields
     const void *planted_vtable = nullptr; void *planted_ctx = nullptr;
 
@@ -249,6 +251,10 @@ private:
     // ---- slots
     Slot *slot(const Op &op) {
         long long s = op.geti("s", -1);
+        if (op.geti("sh") && shared) {   // object owned by another executor, used read-only here
+            if (s < 0 || (size_t)s >= shared->slots.size()) return nullptr;
+            return &shared->slots[(size_t)s];
+        }
         if (s < 0 || (size_t)s >= slots.size()) return nullptr;
         return &slots[(size_t)s];
     }
@@ -310,10 +316,11 @@ private:
     }
 
     void set_pin(const Op &op) {
+        if (o.no_pin) return;
         int be = o.force_be >= 0 ? o.force_be : (int)op.geti("be", 256);
         if (a.vec_limit) *a.vec_limit = be;
     }
-    void clear_pin() { if (a.vec_limit) *a.vec_limit = 256; }
+    void clear_pin() { if (o.no_pin) return; if (a.vec_limit) *a.vec_limit = 256; }
 
     // ---- the interpreter
     void step(const Op &op, Rec &r) {
